@@ -67,14 +67,19 @@ fn lines() {
             "updt" => updater::run_timed(&toks[1..]),
             "upd2" => updater::run_two(&toks[1..]),
             "updl" => updater::run_live(&toks[1..]),
-            "shm" => engine::run(&toks[1..]),
+            "shm" => match std::panic::catch_unwind(|| engine::run(&toks[1..])) {
+                Ok(s) => s,
+                // a worker thread (the daemon's writer starting over the file, a client attaching or calling) did not
+                // reach its next access within the engine's time-out: reported as an outcome, the thread is abandoned
+                Err(_) => "STUCK".to_string(),
+            },
             "shmd" | "shmc" => {
                 engine::FAMILY.store(if toks[0] == "shmc" { 2 } else { 1 }, std::sync::atomic::Ordering::SeqCst);
                 let r = std::panic::catch_unwind(|| engine::run(&toks[1..]));
                 engine::FAMILY.store(0, std::sync::atomic::Ordering::SeqCst);
                 match r {
                     Ok(s) => s,
-                    Err(e) => std::panic::resume_unwind(e),
+                    Err(_) => "STUCK".to_string(),
                 }
             }
             "stall" => engine::run_stall(&toks[1..]),
